@@ -327,7 +327,8 @@ def _replay(ctx: Ctx, rec: dict, wd) -> None:
                                            invariants=[f"Inv_{c}" for c in CLAUSES], name="replay")
     ctx.extra["replay_same_trace"] = (rec2["ev"] == d["trace"]["ev"])
     for clause in bad.get(0, []):
-        ctx.violation(clause, dict(sig, clause=clause), {"trace": rec2, "schedule": d["schedule"], "config": cfg})
+        ctx.violation(clause, dict(sig, clause=clause), {"trace": rec2, "schedule": d["schedule"],
+                                                         "executed": d["executed"], "config": cfg})
 
 
 def run(ctx: Ctx) -> None:
